@@ -192,8 +192,18 @@ func (g *gen) iife(d int) string {
 var cmpOps = []string{"==", "!=", "<", "<=", ">", ">="}
 
 func (g *gen) boolOp(d int) string {
-	w := []int{10, 3, 4, 3, 5, 4, 2, 1, 2}
+	w := []int{10, 3, 4, 3, 5, 4, 2, 1, 2, 3}
 	switch g.weighted(w, "boolop") {
+	case 9:
+		// short-circuit operator with a constant operand in value context: the builder folds
+		// the constant edge of the phi and the block optimiser threads jumps through it
+		g.feat("bool-logic-const-operand")
+		k := pickOf(g, []string{"true", "false", "KOn", "KOff"}, "boolconst")
+		op := pickOf(g, []string{"&&", "||"}, "logop")
+		if g.chance(50, "constleft") {
+			return "(" + k + " " + op + " " + g.nc(tBool, d) + ")"
+		}
+		return "(" + g.nc(tBool, d) + " " + op + " " + k + ")"
 	case 0:
 		return "(" + g.nc(tInt, d) + " " + pickOf(g, cmpOps, "cmp") + " " + g.expr(tInt, d) + ")"
 	case 1:
